@@ -87,7 +87,7 @@ class Builder:
 
 
 def build(rng, depth=3, max_leaf=3, max_mid_per_layer=2, max_children=4, named=True, two_libs=True,
-          unnamed_rate=0.0, top_as_child=False, bus=True):
+          unnamed_rate=0.0, top_as_child=False, bus=True, unnamed_cables=False):
     b = Builder()
     info = {'defs': {}, 'layers': [], 'ports': {}, 'cables': {}, 'children': {}}
 
@@ -111,7 +111,7 @@ def build(rng, depth=3, max_leaf=3, max_mid_per_layer=2, max_children=4, named=T
         for j in range(rng.randint(1, 3)):
             width = rng.choice([1, 1, 1, 2, 3]) if bus else 1
             lower = rng.choice([None, None, 0, 1, 4]) if width > 1 else None
-            p, pins = b.port(d, nm('p', j) or ('p%d' % j), width, direction=rng.choice([1, 2, 2, 3]), lower=lower)
+            p, pins = b.port(d, nm('p', j), width, direction=rng.choice([1, 2, 2, 3]), lower=lower)
             ports.append((p, pins))
         info['ports'][d] = ports
         info['children'][d] = []
@@ -130,7 +130,7 @@ def build(rng, depth=3, max_leaf=3, max_mid_per_layer=2, max_children=4, named=T
             ports = []
             for j in range(rng.randint(0 if layer == depth else 1, 3)):
                 width = rng.choice([1, 1, 2]) if bus else 1
-                p, pins = b.port(d, nm('q', j) or ('q%d' % j), width, direction=rng.choice([2, 3, 1]))
+                p, pins = b.port(d, nm('q', j), width, direction=rng.choice([2, 3, 1]))
                 ports.append((p, pins))
             kids = []
             for j in range(rng.randint(0 if rng.random() < 0.15 else 1, max_children)):
@@ -148,7 +148,7 @@ def build(rng, depth=3, max_leaf=3, max_mid_per_layer=2, max_children=4, named=T
             ncab = rng.randint(0 if rng.random() < 0.1 else 1, 4)
             for j in range(ncab):
                 width = rng.choice([1, 1, 2]) if bus else 1
-                c, wires = b.cable(d, nm('c', j) or ('c%d' % j), width, lower=rng.choice([None, None, 2]) if width > 1 else None)
+                c, wires = b.cable(d, (nm('c', j) if unnamed_cables else (nm('c', j) or ('c%d' % j))), width, lower=rng.choice([None, None, 2]) if width > 1 else None)
                 cables.append((c, wires))
                 for w in wires:
                     r = rng.random()
